@@ -135,6 +135,27 @@ class Client:
     def clean(self):
         return self._run(lambda r: r.clean())
 
+    # object-level commands: they do not unlock the repository
+    def upload_objects(self, directory, names, skip_existing=False):
+        """upload the files directory/<name>...; object names are taken relative to the working directory"""
+        def go(r):
+            os.chdir(directory)
+            return r.upload_objects([Path(directory, n) for n in names], skip_existing=skip_existing)
+        cwd = os.getcwd()
+        try:
+            return self._run(go, unlock=False)
+        finally:
+            os.chdir(cwd)
+
+    def download_objects(self, dest, prefix='', regex=None, skip_existing=False):
+        return self._run(lambda r: r.download_objects(path=Path(dest), object_prefix=prefix, object_regex=regex, skip_existing=skip_existing), unlock=False)
+
+    def list_objects(self, prefix='', regex=None):
+        return self._run(lambda r: r.list_objects(object_prefix=prefix, object_regex=regex), unlock=False)
+
+    def delete_objects(self, paths):
+        return self._run(lambda r: r.delete_objects(list(paths), confirm=False), unlock=False)
+
 
 def serialize_key(key_obj):
     from replicat.repository import Repository
